@@ -32,6 +32,7 @@ type c09Scn struct {
 	eofData     bool   // the connections deliver EOF together with their last bytes (as crypto/tls does)
 	serverFirst bool   // the client waits for the upstream's greeting before it sends anything
 	bigHello    bool   // the ClientHello is padded to a 4 kB / 16 kB record
+	partial     int    // > 0: the first write towards the client takes only that many bytes and times out
 }
 
 func (s c09Scn) String() string {
@@ -51,6 +52,9 @@ func (s c09Scn) String() string {
 	}
 	if s.bigHello {
 		e += " padded-hello"
+	}
+	if s.partial > 0 {
+		e += fmt.Sprintf(" first-write-to-client-takes-%d-bytes-then-times-out", s.partial)
 	}
 	return fmt.Sprintf("%s pxy=%v client-segments=[%s] client-then=%s reply-after=%d reply-segments=[%s] upstream-then=%s%s", s.kind, s.proxyProto, strings.Join(sl, ","), s.clientEnd, s.replyAfter, strings.Join(rl, ","), s.upEnd, e)
 }
@@ -102,6 +106,7 @@ func c09Body(s c09Scn, res *c09Result) func(x *vsched.X) {
 		listenAddr := &net.TCPAddr{IP: net.IPv4(10, 0, 0, 1), Port: 1234}
 		in, client := vnet.Pair("in", listenAddr, "client", clientAddr)
 		in.EOFWithData = s.eofData
+		in.PartialWrite = s.partial
 		env.EOFWithData = s.eofData
 		var serve func(net.Conn) error
 		switch s.kind {
@@ -225,6 +230,11 @@ func c09Oracle(x *vsched.X, s c09Scn, r *c09Result) {
 		x.Fail("client-stream-not-a-prefix-of-reply", d())
 		return
 	}
+	if s.partial > 0 {
+		// a write timeout is a fault: the tunnel may end there. What was delivered must still be the
+		// stream - exactly once and in order (checked above); completeness is not owed.
+		return
+	}
 	if s.proxyProto && r.dials > 0 && len(r.log) == 0 && !bytes.HasPrefix(r.toUpstream, want) {
 		// nothing was closed and everything is at rest: the upstream must have been given the PROXY line
 		x.Fail("proxy-line-not-sent-on-an-established-tunnel", d())
@@ -310,7 +320,7 @@ func c09Scenarios(thorough bool) []c09Scn {
 								if pxy && ra > 0 {
 									n += len("PROXY TCP4 192.0.2.7 10.0.0.1 51000 1234\r\n")
 								}
-								out = append(out, c09Scn{kind, pxy, sp, ce, n, rp, ue, false, false, false})
+								out = append(out, c09Scn{kind, pxy, sp, ce, n, rp, ue, false, false, false, 0})
 							}
 						}
 					}
@@ -333,6 +343,13 @@ func c09Scenarios(thorough bool) []c09Scn {
 					out = append(out, c09Scn{kind: "tcp", proxyProto: pxy, segs: nil, clientEnd: ce, replyAfter: ra, reply: [][]byte{reply}, upEnd: ue})
 				}
 			}
+		}
+	}
+	// a write towards a slow client that makes partial progress and then hits the listener's write timeout
+	for _, kind := range []string{"tcp", "dynamic"} {
+		for _, n := range []int{1, 3, 9} {
+			out = append(out, c09Scn{kind: kind, segs: [][]byte{payload}, clientEnd: "open", replyAfter: len(payload), reply: [][]byte{reply}, upEnd: "wait", partial: n})
+			out = append(out, c09Scn{kind: kind, segs: [][]byte{payload}, clientEnd: "half", replyAfter: 0, reply: [][]byte{reply[:5], reply[5:]}, upEnd: "close", partial: n})
 		}
 	}
 	// readers that report EOF together with the last bytes (TLS-terminating listeners)
@@ -375,11 +392,11 @@ func c09Scenarios(thorough bool) []c09Scn {
 					if !thorough && si%2 == 1 && ce == "close" {
 						continue
 					}
-					out = append(out, c09Scn{"sni", false, sp, ce, ra, [][]byte{reply}, ue, false, false, false})
+					out = append(out, c09Scn{"sni", false, sp, ce, ra, [][]byte{reply}, ue, false, false, false, 0})
 				}
 			}
 		}
-		out = append(out, c09Scn{"sni", true, sp, "half", len(hp) + len("PROXY TCP4 192.0.2.7 10.0.0.1 51000 1234\r\n"), [][]byte{reply}, "close", false, false, false})
+		out = append(out, c09Scn{"sni", true, sp, "half", len(hp) + len("PROXY TCP4 192.0.2.7 10.0.0.1 51000 1234\r\n"), [][]byte{reply}, "close", false, false, false, 0})
 	}
 	return out
 }
@@ -433,7 +450,7 @@ func TestVerifC09Tunnels(t *testing.T) {
 		// quick: every SNI scenario that splits inside / after the hello, and every third of the rest
 		var sub []c09Scn
 		for i, s := range scs {
-			if i%3 == 0 || s.eofData || s.serverFirst || s.bigHello || len(s.segs) == 0 || (s.kind == "sni" && s.clientEnd != "close" && s.upEnd == "close") {
+			if i%3 == 0 || s.eofData || s.serverFirst || s.bigHello || s.partial > 0 || len(s.segs) == 0 || (s.kind == "sni" && s.clientEnd != "close" && s.upEnd == "close") {
 				sub = append(sub, s)
 			}
 		}
